@@ -122,8 +122,18 @@ func c14bBuild(t testing.TB, r *vreport.Report, sc c14bScenario) vsched.Scenario
 							lastAdd = i
 						}
 					}
+					commitIdx := -1 // the document write that committed the current revision
+					for i, rec := range H.Snapshot() {
+						if rec.Key == docID && rec.Op == "WriteUpdateWithXattrs.write" && rec.Applied {
+							commitIdx = i
+						}
+					}
 					if lastDel > lastAdd && lastAdd >= 0 && delThread >= 0 {
-						cause = "swept-as-obsolete-by-the-other-writer-after-being-listed-again"
+						if lastDel > commitIdx {
+							cause = "swept-as-obsolete-by-the-other-writer-after-being-listed-again"
+						} else {
+							cause = "removed-before-the-commit-and-not-stored-again-by-the-committing-attempt"
+						}
 					}
 					viol["C14/race/listed-attachment-unreadable/"+cause] = fmt.Sprintf("revision %s lists %s (%s) but its body cannot be read: %v [%s; errA=%v errB=%v]", leaf, attName, digest, gerr, name, errs[0], errs[1])
 					continue
